@@ -2163,3 +2163,183 @@ Proof.
     destruct (next_packet (c_frag c) (c_packets c) (c_own c) (Some n0) q (p_tags n0)) as [[o k] rest].
     cbn [fst snd]. split; [reflexivity|]. destruct o; [right; reflexivity|exact I].
 Qed.
+
+(* ------------------------------------------------------------------ 9. the receiver hosts a Proxy *)
+(* receive(s, nil, n) on a client Session with an active Proxy (recv_host): every sub-packet goes to the
+   destination its Device names - the host's own handlers, or the queue of that proxied client. *)
+
+Lemma handle_h_own prox i v : p_dev v = i -> handle_h prox i v = handle i v.
+Proof.
+  intro H. unfold handle_h. rewrite H, Z.eqb_refl. cbn [negb]. rewrite andb_false_r. reflexivity.
+Qed.
+
+Lemma handle_h_nop prox i v : is_nop v = true -> handle_h prox i v = ([], 0).
+Proof.
+  intro H. unfold handle_h. rewrite H, orb_true_r. cbn [negb andb]. apply handle_nop. exact H.
+Qed.
+
+Lemma handle_h_untag prox i v :
+  map untag_d (fst (handle_h prox i v)) = fst (handle_h prox i (untag v)) /\
+  snd (handle_h prox i v) = snd (handle_h prox i (untag v)).
+Proof.
+  unfold handle_h. change (p_dev (untag v)) with (p_dev v). change (is_nop (untag v)) with (is_nop v).
+  change (p_fl (untag v)) with (p_fl v).
+  destruct (negb ((p_dev v =? 0) || is_nop v) && negb (f_mdev (p_fl v)) && negb (i =? p_dev v) && prox (p_dev v)).
+  - split; reflexivity.
+  - apply handle_untag.
+Qed.
+
+Lemma handle_h_no_err prox i v : in_ok prox i v -> snd (handle_h prox i v) = 0.
+Proof.
+  intros [Hp [Hd Hr]]. destruct (i =? p_dev v) eqn:E.
+  - assert (He : p_dev v = i) by lia. rewrite (handle_h_own _ _ _ He). rewrite <- He. apply handle_no_err; assumption.
+  - destruct (is_nop v) eqn:En; [rewrite handle_h_nop by assumption; reflexivity|].
+    unfold handle_h. rewrite En, E. replace (p_dev v =? 0) with false by lia.
+    assert (Hm : f_mdev (p_fl v) = false).
+    { unfold packable in Hp. repeat (apply andb_prop in Hp; destruct Hp as [Hp ?]).
+      destruct (f_mdev (p_fl v)); [discriminate|reflexivity]. }
+    rewrite Hm. destruct Hr as [Hr|Hr]; [lia|]. rewrite Hr. reflexivity.
+Qed.
+
+Lemma recv_inner_h_spec prox i inner :
+  Forall (in_ok prox i) inner ->
+  recv_inner_h prox i (length inner) inner = (flat_map (fun v => fst (handle_h prox i v)) inner, 0).
+Proof.
+  intro H. induction H as [|v l Hv _ IH]; [reflexivity|].
+  cbn [length recv_inner_h flat_map]. pose proof (handle_h_no_err prox i v Hv) as He.
+  destruct (handle_h prox i v) as [d e]. cbn [snd fst] in *. subst e. cbn [Z.eqb]. rewrite IH. reflexivity.
+Qed.
+
+Lemma recv_host_spec prox i t :
+  i <> 0 -> wf_tx prox i t ->
+  map untag_d (fst (recv_host prox i t)) = flat_map (fun v => fst (handle_h prox i v)) (map untag (tx_packets t)) /\
+  (snd (recv_host prox i t) = 0 \/
+   (snd (recv_host prox i t) = E_COUNT /\ fst (recv_host prox i t) = [] /\ exists o, t = TMulti o /\ c_in o = [])).
+Proof.
+  intros Hi Hw. destruct t as [p|o]; cbn [wf_tx tx_packets recv_host] in *.
+  - destruct Hw as [Hd Hp]. destruct (handle_h_untag prox i p) as [H1 H2]. split.
+    + rewrite H1. cbn [map flat_map]. rewrite app_nil_r. reflexivity.
+    + left. rewrite (handle_h_own _ _ _ Hd). pose proof (handle_no_err p) as Hn. rewrite Hd in Hn. apply Hn; assumption.
+  - destruct Hw as [Hd [Hl [Hb [Hall _]]]].
+    rewrite Hd. replace (i =? 0) with false by lia. rewrite (Z.eqb_refl i). cbn [negb]. rewrite andb_false_r.
+    destruct (f_len (c_fl o) =? 0) eqn:E0.
+    + assert (Hnil : c_in o = []) by (apply len_zero_nil; lia).
+      split; [rewrite Hnil; reflexivity|]. right. cbn [snd fst].
+      split; [reflexivity|]. split; [reflexivity|]. exists o. split; [reflexivity|assumption].
+    + rewrite Hl, to_nat_len, recv_inner_h_spec by assumption.
+      cbn [fst snd]. split; [|left; reflexivity].
+      rewrite map_flat_map, flat_map_map. apply flat_map_ext. intro v.
+      destruct (handle_h_untag prox i v) as [H1 _]. exact H1.
+Qed.
+
+(* what items put on the wire, processed packet by packet = the packets they hold, processed one by one *)
+Lemma sent_map_gen {B} reg i (f : packet -> list B) l :
+  Forall (src_ok reg i) l -> flat_map f (sent i l) = flat_map (fun p => f (untag (norm i p))) (flatten l).
+Proof.
+  intro H. induction H as [|p l [_ [Hin _]] _ IH]; [reflexivity|].
+  rewrite sent_cons. unfold flatten in *. cbn [flat_map]. rewrite !flat_map_app, IH. f_equal.
+  rewrite expand_norm in *. unfold expand. destruct (is_cont p).
+  - clear - Hin.
+    induction Hin as [|v l [_ [Hd _]] _ IH]; [reflexivity|]. cbn [map flat_map]. rewrite IH. f_equal.
+    unfold norm. replace (p_dev v =? 0) with false by lia. reflexivity.
+  - cbn [map flat_map]. rewrite !app_nil_r. reflexivity.
+Qed.
+
+Lemma flat_map_handle_h_nonnop prox i l :
+  flat_map (fun v => fst (handle_h prox i v)) (nonnop l) = flat_map (fun v => fst (handle_h prox i v)) l.
+Proof.
+  induction l as [|p l IH]; [reflexivity|]. cbn [nonnop filter flat_map].
+  destruct (is_nop p) eqn:E; cbn [negb].
+  - rewrite handle_h_nop by assumption. exact IH.
+  - cbn [flat_map]. f_equal. exact IH.
+Qed.
+
+Lemma hstep_spec c prox st tx st' :
+  wf_conf c -> qok c prox (pending st) -> session_next c st = (Some tx, st') ->
+  exists dropped used,
+    pending st = dropped ++ used ++ pending st' /\
+    abandon (c_own c) (s_last st) (pending st) = used ++ abandon (c_own c) (s_last st') (pending st') /\
+    (pending st <> [] -> dropped ++ used <> []) /\
+    map untag_d (fst (recv_host prox (c_own c) tx)) = flat_map (direct_h prox (c_own c)) (flatten used).
+Proof.
+  intros Hw Hall H.
+  destruct (session_next_spec_q _ prox _ _ _ Hw Hall H) as [dropped [used [H1 [H2 [_ [H4 [H5 [H6 _]]]]]]]].
+  exists dropped, used. split; [exact H1|]. split; [exact H2|]. split; [exact H4|].
+  destruct Hw as [Hi _]. destruct (recv_host_spec prox _ _ Hi H6) as [R1 _].
+  rewrite R1, <- flat_map_handle_h_nonnop, H5, flat_map_handle_h_nonnop.
+  apply (sent_map_gen prox). destruct Hall as [Hall _].
+  rewrite H1 in Hall. apply Forall_app in Hall. destruct Hall as [_ Hall]. apply Forall_app in Hall. apply Hall.
+Qed.
+
+Lemma hdrain_fuel_delivers c prox : wf_conf c -> forall fuel st,
+  (length (pending st) < fuel)%nat -> qok c prox (pending st) ->
+  map untag_d (deliveries (hdrain_fuel c prox fuel st)) =
+  flat_map (direct_h prox (c_own c)) (flatten (abandon (c_own c) (s_last st) (pending st))).
+Proof.
+  intro Hw. induction fuel as [|f IH]; intros st Hf Hall; [lia|].
+  cbn [hdrain_fuel]. destruct (session_next c st) as [[tx|] st'] eqn:E.
+  - destruct (hstep_spec _ prox _ _ _ Hw Hall E) as [dropped [used [H1 [H2 [H4 H5]]]]].
+    destruct (recv_host prox (c_own c) tx) as [d e]. cbn [fst] in H5.
+    rewrite deliveries_cons. cbn [st_dlv]. rewrite map_app, H5, H2, flatten_app, flat_map_app. f_equal.
+    destruct (pending st') as [|x r] eqn:Ep; [reflexivity|]. cbn [is_nil]. rewrite <- Ep in H1 |- *.
+    assert (Hne : pending st <> []).
+    { intro Hc. rewrite Hc in H1. destruct dropped; [|discriminate]. destruct used; [|discriminate].
+      cbn [app] in H1. rewrite Ep in H1. discriminate. }
+    rewrite IH.
+    + reflexivity.
+    + pose proof (app_length_lt dropped used (pending st') (H4 Hne)) as HL. rewrite <- H1 in HL. lia.
+    + rewrite H1 in Hall. apply qok_suffix in Hall. apply qok_suffix in Hall. exact Hall.
+  - apply session_next_none in E. rewrite E. reflexivity.
+Qed.
+
+(* drain_delivers_queue towards a proxy host: per-device routing, in order *)
+Lemma hdrain_delivers_queue c prox last q :
+  wf_conf c -> Forall (fun p => queueable p = true) q -> all_reg prox (c_own c) q ->
+  map untag_d (deliveries (hdrain c prox (mkS q None last))) =
+  flat_map (direct_h prox (c_own c)) (abandon (c_own c) last q).
+Proof.
+  intros Hw Hq Hr. unfold hdrain.
+  rewrite (hdrain_fuel_delivers c prox Hw); [|lia|apply queue_qok; assumption].
+  cbn [s_last pending s_peek s_q]. rewrite flatten_plain; [reflexivity|].
+  apply abandon_Forall. apply queueable_plain. exact Hq.
+Qed.
+
+(* whatever handle delivers goes to the session it was given and names the device of the packet *)
+Lemma handle_dest sid p d : In d (fst (handle sid p)) -> d_sid d = sid /\ p_dev (d_pkt d) = p_dev p.
+Proof.
+  unfold handle, handle_pre, handle_body.
+  repeat match goal with |- context [if ?b then _ else _] => destruct b end;
+    cbn [fst In]; intro H; try contradiction; destruct H as [H|[]]; subst d; split; reflexivity.
+Qed.
+
+Lemma direct_h_dest prox i p d :
+  packable p = true -> In d (direct_h prox i p) -> d_sid d = p_dev (d_pkt d).
+Proof.
+  intros Hp. unfold direct_h, handle_h. set (v := untag (norm i p)).
+  assert (Hm : f_mdev (p_fl v) = false).
+  { subst v. cbn [untag set_tags p_fl]. rewrite p_fl_norm.
+    unfold packable in Hp. repeat (apply andb_prop in Hp; destruct Hp as [Hp ?]).
+    destruct (f_mdev (p_fl p)); [discriminate|reflexivity]. }
+  destruct (negb ((p_dev v =? 0) || is_nop v) && negb (f_mdev (p_fl v)) && negb (i =? p_dev v) && prox (p_dev v)) eqn:E.
+  - cbn [fst In]. intros [H|[]]. subst d. reflexivity.
+  - intro H. pose proof H as H0. apply handle_dest in H. destruct H as [H1 H2]. rewrite H1, H2.
+    unfold handle, handle_pre in H0. rewrite Hm in H0. cbn [negb andb] in H0.
+    destruct ((p_dev v =? 0) || is_nop v); [destruct H0|].
+    destruct (i =? p_dev v) eqn:E3; [lia|]. cbn [negb] in H0. destruct H0.
+Qed.
+
+(* per-device routing: every packet delivered during a drain towards a proxy host reaches the
+   destination its Device names *)
+Lemma hdrain_routes_by_device c prox last q d :
+  wf_conf c -> Forall (fun p => queueable p = true) q -> all_reg prox (c_own c) q ->
+  In d (deliveries (hdrain c prox (mkS q None last))) -> d_sid d = p_dev (d_pkt d).
+Proof.
+  intros Hw Hq Hr Hin.
+  assert (Hu : In (untag_d d) (map untag_d (deliveries (hdrain c prox (mkS q None last))))) by (apply in_map; exact Hin).
+  rewrite (hdrain_delivers_queue c prox last q Hw Hq Hr) in Hu.
+  apply in_flat_map in Hu. destruct Hu as [p [Hp Hd]].
+  assert (Hpk : packable p = true).
+  { apply queueable_packable. pose proof (abandon_Forall (fun p => queueable p = true) (c_own c) last q Hq) as HA.
+    rewrite Forall_forall in HA. apply HA. exact Hp. }
+  exact (direct_h_dest prox (c_own c) p (untag_d d) Hpk Hd).
+Qed.
